@@ -187,3 +187,14 @@ Print Assumptions C08_guard_is_the_only_failure.
 Print Assumptions C08_rejected_exactly_on_overdraft.
 Print Assumptions C08_compute_tax_outcome.
 Print Assumptions C08_guard_only_failure_nonvacuous.
+
+(** Source tie (regenerated on every run).  [bal_step_gen] (Model/BalanceGen.v) executes, for one transaction, the statements
+    the translator reads from the loop body of balance.py (Model/GeneratedTie.v [gen_bal_program]): the stores in source order
+    and then the test [not is_equal_within_precision(final[from], ZERO, mask) and final[from] < ZERO and not allow -> raise] on
+    the value just stored.  It is the hand-written [bal_step] whose guard the theorems above are about; an edit that moves the
+    test before the stores, tests another value or drops it makes this theorem stop compiling (Proofs/BalanceGenProofs.v). *)
+From RP2V Require Import Model.GeneratedTie Model.BalanceGen Proofs.BalanceGenProofs.
+Theorem C08_source_tie_overdraft_guard :
+  forall (allow : bool) (st : result balst) (t : txn), bal_step_gen allow st t = bal_step allow st t.
+Proof. exact bal_step_gen_agrees. Qed.
+Print Assumptions C08_source_tie_overdraft_guard.
